@@ -12,6 +12,10 @@ def write_files(d, files):
     for rel, text in files.items():
         p = os.path.join(d, rel)
         os.makedirs(os.path.dirname(p), exist_ok=True)
+        if isinstance(text, bytes):
+            with open(p, 'wb') as f:
+                f.write(text)
+            continue
         with open(p, 'w', encoding='utf-8') as f:
             f.write(text)
 
